@@ -73,6 +73,11 @@ fn first_diff(a: &BTreeMap<String, String>, b: &BTreeMap<String, String>) -> Opt
 }
 
 fn txn_statement(rng: &mut Rng, next_id: &mut i64, ddl: bool) -> (String, &'static str) {
+    // statements that try to open a second transaction inside the open one (rejected, but they
+    // must not disturb what ROLLBACK restores)
+    if rng.chance(1, 12) {
+        return if rng.chance(1, 2) { ("BEGIN".to_string(), "nested-begin") } else { (format!("CREATE SCHEMA sx{}", rng.below(2)), "create-schema") };
+    }
     let r = rng.below(if ddl { 16 } else { 9 });
     match r {
         0..=2 => {
